@@ -133,6 +133,28 @@ def gen_cases(out, tier, scratch):
                     add("layout:" + kind, f"CLayout {clist(sh)} {cpair(g)} {copt(ya)} {t}", (sh, g, ya), True,
                         {"op": "_write_cog(arange.reshape(shape)) read back", "shape": sh, "geobox_shape": g, "yaxis": ya,
                          "result": t[:120]} if (sh, g) == ((2, 3, 4), (2, 3)) else None)
+        import xarray as xr
+        from odc.geo.xr import xr_coords
+
+        for n, m in [(2, 2), (3, 3), (4, 4), (2, 3), (4, 2)]:
+            for lay in ("BYX", "YXB"):
+                # n bands of m x m pixels (cube when n == m); with overviews the layers go through write_cog_layers
+                g = mk_gbox((m, m))
+                sh = (n, m, m) if lay == "BYX" else (m, m, n)
+                dims = ("band", "y", "x") if lay == "BYX" else ("y", "x", "band")
+                pix = np.arange(int(np.prod(sh)), dtype="int32").reshape(sh)
+                xx = xr.DataArray(pix, dims=dims, coords=xr_coords(g))
+                calls = {"write_cog": lambda: R.write_cog(xx, ":mem:"), "write_cog_layers": lambda: R.write_cog_layers([xx], ":mem:")}
+                if m % 2 == 0:
+                    gk = g.zoom_out(2)
+                    osh = (n, m // 2, m // 2) if lay == "BYX" else (m // 2, m // 2, n)
+                    ov = xr.DataArray(np.zeros(osh, "int32"), dims=dims, coords=xr_coords(gk))
+                    calls["to_cog+overviews"] = lambda: R.to_cog(xx, overviews=[ov])
+                for name, call in calls.items():
+                    r = read_mem(call())
+                    vals = [int(v) for v in r["pix"].ravel()]
+                    t = f"(Ok {ctuple(ctuple(cz(r['count']), cz(r['shape'][0]), cz(r['shape'][1])), clist(vals))})"
+                    add("layout:" + name, f"CLayout {clist(sh)} {cpair((m, m))} {copt(1 if lay == 'BYX' else 0)} {t}", (name, sh, lay))
         for sh in [(3, 4), (2, 3, 4), (4, 2, 3), (1, 1, 5)]:
             for idx in itertools.product(*[range(d) for d in sh]):
                 add("ravel", f"CRavel {clist(sh)} {clist(idx)} {cz(int(np.ravel_multi_index(idx, sh)))}", (sh, idx))
@@ -171,14 +193,22 @@ def gen_cases(out, tier, scratch):
         import xarray as xr
         from odc.geo.xr import xr_coords
 
-        g = mk_gbox((4, 5))
+        # every write path: write_cog, to_cog, write_cog with supplied overviews, write_cog_layers
+        g = mk_gbox((4, 6))
         for kw, attr in itertools.product([None, 0, 7, -3], [None, 0, 9]):
-            xx = xr.DataArray(np.zeros((4, 5), "int16"), dims=("y", "x"), coords=xr_coords(g),
-                              attrs={} if attr is None else {"nodata": attr})
+            attrs = {} if attr is None else {"nodata": attr}
+            xx = xr.DataArray(np.zeros((4, 6), "int16"), dims=("y", "x"), coords=xr_coords(g), attrs=attrs)
+            ov = xr.DataArray(np.zeros((2, 3), "int16"), dims=("y", "x"), coords=xr_coords(g.zoom_out(2)), attrs=attrs)
             extra = {} if kw is None else {"nodata": kw}
-            r = read_mem(R.write_cog(xx, ":mem:", **extra))
-            nd = None if r["nodata"] is None else int(r["nodata"])
-            add("nodata", f"CNodata {copt(kw)} {copt(attr)} {copt(nd)}", (kw, attr))
+            paths = {"write_cog": lambda: R.write_cog(xx, ":mem:", **extra),
+                     "to_cog": lambda: R.to_cog(xx, **extra),
+                     "to_cog+overviews": lambda: R.to_cog(xx, overviews=[ov], **extra),
+                     "write_cog_layers": lambda: R.write_cog_layers([xx, ov], ":mem:", **extra)}
+            for name, call in paths.items():
+                r = read_mem(call())
+                nd = None if r["nodata"] is None else int(r["nodata"])
+                add("nodata:" + name, f"CNodata {copt(kw)} {copt(attr)} {copt(nd)}", (name, kw, attr), True,
+                    {"op": name, "nodata_kw": kw, "attrs_nodata": attr, "read_back": nd} if (kw, attr) == (0, 9) else None)
 
     # ---- overwrite guard on a real directory
     def sec_fs():
@@ -486,6 +516,20 @@ def roundtrip_configs(tier):
         dict(base, H=100, W=70, blocksize=100, overview_levels=[2, 4], use_windowed_writes=True, layout="BYX", B=2),
         dict(base, H=64, W=96, blocksize=32, external_overviews=[2, 4]),
         dict(base, H=64, W=96, blocksize=32, external_overviews=[2], layout="BYX", B=2, dest="file"),
+        # supplied overviews (write_cog_layers) with cube-shaped arrays, band-first and band-last
+        dict(base, layout="BYX", B=16, H=16, W=16, external_overviews=[2, 4]),
+        dict(base, layout="YXB", B=16, H=16, W=16, external_overviews=[2, 4], dest="file"),
+        dict(base, layout="BYX", B=8, H=8, W=8, external_overviews=[2], dtype="uint8", dest="file"),
+        dict(base, layout="YXB", B=4, H=4, W=4, external_overviews=[2], dtype="float32"),
+        dict(base, layout="BYX", B=4, H=8, W=8, external_overviews=[2]),       # the overview layer is the cube
+        dict(base, layout="YXB", B=4, H=8, W=8, external_overviews=[2]),
+        # nodata precedence with supplied overviews: keyword vs attribute vs none
+        dict(base, H=16, W=24, dtype="uint8", external_overviews=[2], nodata_attr=255, nodata_kw=0),
+        dict(base, H=16, W=24, dtype="uint8", external_overviews=[2], nodata_kw=7, dest="file"),
+        dict(base, H=16, W=24, dtype="uint8", external_overviews=[2, 4], nodata_attr=255),
+        dict(base, H=16, W=24, dtype="int16", external_overviews=[2], layout="BYX", B=2, nodata_attr=-1, nodata_kw=-9999),
+        dict(base, H=16, W=24, dtype="uint8", nodata_attr=255, nodata_kw=0, dest="file"),
+        dict(base, H=16, W=24, dtype="uint8", overview_levels=[2], nodata_attr=255, nodata_kw=0),
         dict(base, H=512, W=512, dtype="uint8"),                 # default overview table
         dict(base, H=511, W=600, dtype="uint8"),
         dict(base, H=1, W=1),
@@ -509,8 +553,10 @@ def roundtrip_configs(tier):
         r = rng.random()
         if r < 0.3 and min(c["H"], c["W"]) >= 8:
             c["overview_levels"] = rng.choice([[2], [2, 4], [4], []])
-        elif r < 0.45 and c["H"] % 4 == 0 and c["W"] % 4 == 0 and min(c["H"], c["W"]) >= 8:
+        elif r < 0.55 and c["H"] % 4 == 0 and c["W"] % 4 == 0 and min(c["H"], c["W"]) >= 8:
             c["external_overviews"] = rng.choice([[2], [2, 4]])
+            if lay != "YX" and rng.random() < 0.4:
+                c["B"] = c["W"] = c["H"]                   # cube
         if rng.random() < 0.3:
             c["nodata_attr"] = rng.choice([0, 1, 100])
         if rng.random() < 0.2:
